@@ -23,7 +23,6 @@ _NEWCLS = "a private CLASS the refactoring introduces is reached through a class
 EXPECTED_UNDECIDED = {
     # name -> {property: reason}; a check may answer `cannot decide` (exit 2) on these, never a violation
     "C19-b4": {"C19": "the digest command hands the workspace and the algorithms to a NEW function of pyhf.utils that does the work of digest() without calling it; which of its parameters means what is not in the command-line contract table (C19.R1), and the command-line world does not model it (C19.R4)"},
-    "C19-d1": {"C19": "a NEW command-line option (`pyhf digest --output-file`): C19.R1 demands a contract-table entry for every option, a new one has none until the table is extended"},
     "C12-d3": {p_: "_finalize_parameters_specs and _create_parameters_from_spec are MERGED into a private class with a classmethod constructor (`_ParameterLayout.from_requirements`): the pinned anchors are gone (no single function to relocate to) and the build-pipeline scenario does not model classmethods of classes it was not given" for p_ in ("C01", "C02", "C03", "C10", "C12", "C20")},
     "C17-d3": {"C17": "PatchSet delegates to a new private `_PatchRegistry`; the C17.R6 scenario code reads the set's own `_patches` list directly (python-level len() of a modelled instance)"},
     "C18-d3": {"C18": "build_measurement is split over a NamedTuple with a property and two helpers; the lumi unit scenario (C18.R2) and the whole-file cycle (C18.R5) are function-level interpretations that do not iterate a generator of modelled records"},
